@@ -62,6 +62,15 @@ func isoCorpus(e *ev.Env) {
 		{"baseurl-other-host", isoCase{History: []wreq{
 			{Kind: "base-url", Raw: rawReq(reqSpec{Target: "/base", Host: "first.example.org:8080"})}},
 			Probe: probeSpec{Route: 4, Class: ckNone, Raw: rawReq(reqSpec{Target: "/probeplain", Host: "second.test"})}}},
+		{"half-bound-query-then-probe", isoCase{History: []wreq{
+			{Kind: "half-bind-query", Raw: rawReq(reqSpec{Target: "/bind?card=4111-secret&name=h0&filter%5Bcolor=red"})}},
+			Probe: probeSpec{Route: 4, Class: ckNone, Raw: rawReq(reqSpec{Target: "/probeplain?tag=shoes"})}}},
+		{"half-bound-form-then-probe", isoCase{History: []wreq{
+			{Kind: "half-bind-form", Raw: rawReq(reqSpec{Method: "POST", Target: "/bind", CType: "application/x-www-form-urlencoded", Body: []byte("card=4111-secret&name=h0&filter%5Bcolor=red")})}},
+			Probe: probeSpec{Route: 4, Class: ckNone, Raw: rawReq(reqSpec{Method: "POST", Target: "/probeplain", CType: "application/x-www-form-urlencoded", Body: []byte("tag=shoes")})}}},
+		{"half-bound-withinput-then-probe", isoCase{History: []wreq{
+			{Kind: "half-bind-query", Raw: rawReq(reqSpec{Target: "/redir/h0?input=1&card=4111-secret&filter%5Bcolor=red"})}},
+			Probe: probeSpec{Route: 4, Class: ckNone, Variant: "R", Raw: rawReq(reqSpec{Target: "/probeplain?variant=R&tag=shoes"})}}},
 		{"server-error-path-then-probe", isoCase{History: []wreq{
 			{Kind: "locals", Cookie: ckValid, Raw: rawReq(reqSpec{Target: "/locals/h0", Cookie: one})},
 			{Kind: "malformed", Kills: true, Raw: []byte("GET\r\n\r\n")}},
